@@ -5,7 +5,7 @@
 SPECIFICATION Spec
 CONSTANTS
   HalfSet <- HalfA
-  Profiles <- ProfA
+  Profiles <- ProfAR
   AreaProfiles <- AreaAX
   Graphs = {"cycle", "starL"}
   FixSet <- FixAT
@@ -13,6 +13,7 @@ CONSTANTS
   MaxIter = 1
   GS = 4
   G = 2
+  Rounds = 1
   TOL = 0
   EMIT = FALSE
 INVARIANT TemplatesOnLattice
